@@ -205,6 +205,8 @@ impl Model {
         match self.m.get(&id) {
             None => 0,
             Some((_, false)) => 3,
+            // (the scan is linear: for very large models the distinction unique / shared is not made -- evidence only)
+            Some((_, true)) if self.m.len() > 5000 => 1,
             Some((c, true)) => {
                 let shared = self.m.iter().any(|(o, v)| *o != id && v.1 && v.0 == *c);
                 if shared {
